@@ -8,7 +8,10 @@ import (
 	"slices"
 )
 
-const sumFilename = "gengo.sum"
+// Filename is the name of the sum file in the module root.
+const Filename = "gengo.sum"
+
+const sumFilename = Filename
 
 func Load(modRoot string) (*File, error) {
 	data, err := os.ReadFile(filepath.Join(modRoot, sumFilename))
